@@ -196,7 +196,12 @@ func init() {
 				if r.Intn(10) == 0 && len(hb) > 0 {
 					hb = hb[1:]
 				}
-				c.Add(map[string]any{"op": "eth.hexbytes", "text": Pick(r, []string{"0x", ""}) + hb}, "hexbytes")
+				if r.Intn(12) == 0 && len(hb) > 2 {
+					bs := []byte(hb)
+					bs[r.Intn(len(bs))] = Pick(r, []byte{'g', 'x', 'X', ' ', '-', '_', '+'})
+					hb = string(bs)
+				}
+				c.Add(map[string]any{"op": "eth.hexbytes", "text": Pick(r, []string{"0x", "0x", "0x", "", "", "", "0X", "0x0x", "0x0X", " 0x", "0x ", "00x", "x"}) + hb}, "hexbytes")
 			}
 		},
 		Impl: func(req map[string]any) any {
@@ -244,15 +249,27 @@ func init() {
 				}
 				return ok(map[string]any{"hex0x": a.String(), "plain": ethtypes.AddressPlainHex(*a).String(), "checksum": ethtypes.AddressWithChecksum(*a).String()})
 			case "eth.hexbytes":
-				b, err := ethtypes.NewHexBytes0xPrefix(str(req, "text"))
+				// three independent entry points: the constructor and the two JSON unmarshallers. Each is judged on its
+				// own (an invalid text must be refused by all of them), so none is skipped when another one errs.
+				text := str(req, "text")
+				raw, _ := json.Marshal(text)
+				res := func(b []byte, err error) string {
+					if err != nil {
+						return "err"
+					}
+					return "ok:" + hx(b)
+				}
+				b, err := ethtypes.NewHexBytes0xPrefix(text)
+				var hp ethtypes.HexBytesPlain
+				e2 := json.Unmarshal(raw, &hp)
+				var h0 ethtypes.HexBytes0xPrefix
+				e3 := json.Unmarshal(raw, &h0)
+				r1, r2, r3 := res(b, err), res(hp, e2), res(h0, e3)
+				if r1 != r2 || r1 != r3 {
+					return map[string]any{"pathsDiffer": true, "ctor": r1, "jsonPlain": r2, "json0x": r3}
+				}
 				if err != nil {
 					return "err"
-				}
-				// via JSON too
-				raw, _ := json.Marshal(str(req, "text"))
-				var hp ethtypes.HexBytesPlain
-				if e2 := json.Unmarshal(raw, &hp); e2 != nil || hx(hp) != hx(b) {
-					return "json-path-differs"
 				}
 				return ok(map[string]any{"plain": ethtypes.HexBytesPlain(b).String(), "hex0x": b.String()})
 			}
@@ -371,7 +388,17 @@ func init() {
 					}
 				}
 				im, accepted := impl.(map[string]any)
-				if accepted != valid || (accepted && im["ok"].(map[string]any)["plain"] != strings.ToLower(t)) {
+				if accepted && im["pathsDiffer"] == true {
+					want := "err"
+					if valid {
+						want = "ok:" + strings.ToLower(t)
+					}
+					for _, k := range []string{"ctor", "jsonPlain", "json0x"} {
+						if im[k] != want {
+							fs = append(fs, Finding{Kind: "violation", Region: "eth.hexbytes.iff." + k, Detail: fmt.Sprintf("%s: got %v, the hex text requires %s", k, im[k], trunc(want, 80))})
+						}
+					}
+				} else if accepted != valid || (accepted && im["ok"].(map[string]any)["plain"] != strings.ToLower(t)) {
 					fs = append(fs, Finding{Kind: "violation", Region: "eth.hexbytes.iff", Detail: "acceptance / bytes differ from the hex text"})
 				}
 			}
